@@ -189,6 +189,8 @@ pub struct RCaps<T> {
     pub set_pos: Option<fn(&mut T, u64) -> R<()>>,
     pub io_read: Option<fn(&mut T, &mut [u8]) -> R<usize>>,
     pub clone: Option<fn(&T) -> T>,
+    /// `Clone::clone_from` (a type may override it)
+    pub clone_from: Option<fn(&mut T, &T)>,
     pub counter: Option<fn(&T) -> usize>,
 }
 
@@ -201,7 +203,7 @@ impl<T> Copy for RCaps<T> {}
 
 impl<T> RCaps<T> {
     pub fn none() -> Self {
-        RCaps { pos: None, set_pos: None, io_read: None, clone: None, counter: None }
+        RCaps { pos: None, set_pos: None, io_read: None, clone: None, clone_from: None, counter: None }
     }
 }
 
@@ -217,16 +219,22 @@ pub fn cap_io_read<T: std::io::Read>(t: &mut T, b: &mut [u8]) -> R<usize> {
 pub fn cap_clone<T: Clone>(t: &T) -> T {
     t.clone()
 }
+pub fn cap_clone_from<T: Clone>(into: &mut T, from: &T) {
+    into.clone_from(from)
+}
 
 pub struct Rd<E: Endianness, T> {
     pub r: T,
     pub caps: RCaps<T>,
+    /// the clone used by the previous fork (its state has diverged): the next fork overwrites it with
+    /// `clone_from` instead of making a fresh `clone`, so that both ways of cloning are exercised
+    spare: Option<T>,
     _e: PhantomData<E>,
 }
 
 impl<E: Endianness, T> Rd<E, T> {
     pub fn new(r: T, caps: RCaps<T>) -> Self {
-        Rd { r, caps, _e: PhantomData }
+        Rd { r, caps, spare: None, _e: PhantomData }
     }
 }
 
@@ -296,8 +304,16 @@ impl<E: Endianness, T: CodesRead<E> + TabR<E>> DynR for Rd<E, T> {
     fn fork(&mut self, f: &mut dyn FnMut(&mut dyn DynR)) -> bool {
         match self.caps.clone {
             Some(cl) => {
-                let mut c = Rd::<E, T>::new(cl(&self.r), self.caps);
+                let inner = match (self.caps.clone_from, self.spare.take()) {
+                    (Some(cf), Some(mut sp)) => {
+                        cf(&mut sp, &self.r);
+                        sp
+                    }
+                    _ => cl(&self.r),
+                };
+                let mut c = Rd::<E, T>::new(inner, self.caps);
                 f(&mut c);
+                self.spare = Some(c.r);
                 true
             }
             None => false,
@@ -838,7 +854,7 @@ macro_rules! impl_reader_e {
                             pos: Some(cap_pos),
                             set_pos: Some(cap_set_pos),
                             io_read: Some(cap_io_read),
-                            clone: if clonable { Some(cap_clone) } else { None },
+                            clone: if clonable { Some(cap_clone) } else { None }, clone_from: if clonable { Some(cap_clone_from) } else { None },
                             counter: None,
                         };
                         f(&mut Rd::<$E, _>::new(br, caps));
@@ -849,7 +865,7 @@ macro_rules! impl_reader_e {
                             pos: Some(cap_pos),
                             set_pos: Some(cap_set_pos),
                             io_read: None,
-                            clone: if clonable { Some(cap_clone) } else { None },
+                            clone: if clonable { Some(cap_clone) } else { None }, clone_from: if clonable { Some(cap_clone_from) } else { None },
                             counter: Some(|c| c.bits_read),
                         };
                         f(&mut Rd::<$E, _>::new(cr, caps));
@@ -862,7 +878,7 @@ macro_rules! impl_reader_e {
                             pos: None,
                             set_pos: None,
                             io_read: None,
-                            clone: if clonable { Some(cap_clone) } else { None },
+                            clone: if clonable { Some(cap_clone) } else { None }, clone_from: if clonable { Some(cap_clone_from) } else { None },
                             counter: None,
                         };
                         f(&mut Rd::<$E, _>::new(dr, caps));
@@ -884,7 +900,7 @@ macro_rules! impl_reader_e {
                             pos: Some(cap_pos),
                             set_pos: Some(cap_set_pos),
                             io_read: Some(cap_io_read),
-                            clone: if clonable { Some(cap_clone) } else { None },
+                            clone: if clonable { Some(cap_clone) } else { None }, clone_from: if clonable { Some(cap_clone_from) } else { None },
                             counter: None,
                         };
                         f(&mut Rd::<$E, _>::new(br, caps));
@@ -895,7 +911,7 @@ macro_rules! impl_reader_e {
                             pos: Some(cap_pos),
                             set_pos: Some(cap_set_pos),
                             io_read: None,
-                            clone: if clonable { Some(cap_clone) } else { None },
+                            clone: if clonable { Some(cap_clone) } else { None }, clone_from: if clonable { Some(cap_clone_from) } else { None },
                             counter: Some(|c| c.bits_read),
                         };
                         f(&mut Rd::<$E, _>::new(cr, caps));
@@ -903,7 +919,7 @@ macro_rules! impl_reader_e {
                     RWrap::CountPrint => unreachable!("CountPrint is served by unbuf_print"),
                     RWrap::Dbg => {
                         let dr = DbgBitReader::<$E, _>::new(br);
-                        let caps = RCaps::<DbgBitReader<$E, T<WR>>> { pos: None, set_pos: None, io_read: None, clone: if clonable { Some(cap_clone) } else { None }, counter: None };
+                        let caps = RCaps::<DbgBitReader<$E, T<WR>>> { pos: None, set_pos: None, io_read: None, clone: if clonable { Some(cap_clone) } else { None }, clone_from: if clonable { Some(cap_clone_from) } else { None }, counter: None };
                         f(&mut Rd::<$E, _>::new(dr, caps));
                     }
                 }
@@ -923,7 +939,7 @@ macro_rules! impl_reader_e {
                     pos: Some(cap_pos),
                     set_pos: Some(cap_set_pos),
                     io_read: None,
-                    clone: Some(cap_clone),
+                    clone: Some(cap_clone), clone_from: Some(cap_clone_from),
                     counter: Some(|c| c.bits_read),
                 };
                 f(&mut Rd::<$E, _>::new(cr, caps));
@@ -941,7 +957,7 @@ macro_rules! impl_reader_e {
                     pos: Some(cap_pos),
                     set_pos: Some(cap_set_pos),
                     io_read: None,
-                    clone: Some(cap_clone),
+                    clone: Some(cap_clone), clone_from: Some(cap_clone_from),
                     counter: Some(|c| c.bits_read),
                 };
                 f(&mut Rd::<$E, _>::new(cr, caps));
